@@ -397,10 +397,58 @@ def r10_spellings_normalise_identically(ctx):
 
     union_types = tuple(t for t in (type(typing.Union[int, str]), getattr(types, "UnionType", None)) if t is not None)
     # the registered generic handlers of the package, by the generic they are registered for
-    table = {}
-    for f, g in A.generic_handlers(repo):
+    import collections.abc
+
+    class Val:
+        """a value type made by a container handler: `<Check>[args]`, later narrowed with `with_bound(origin)`"""
+
+        def __init__(self, name, items, bound=None):
+            self.name, self.items, self.bound = name, tuple(items), bound
+
+        def with_bound(self, bound):
+            return Val(self.name, self.items, bound)
+
+        def __eq__(self, other):
+            return isinstance(other, Val) and (self.name, self.items, self.bound) == (other.name, other.items, other.bound)
+
+        __hash__ = object.__hash__
+
+        def __repr__(self):
+            return f"{self.name}[{', '.join(getattr(i, '__name__', repr(i)) for i in self.items)}]" + (f" bound to {getattr(self.bound, '__name__', self.bound)}" if self.bound is not None else "")
+
+    class ValFactory:
+        def __init__(self, name):
+            self.name = name
+
+        def __getitem__(self, item):
+            return Val(self.name, item if isinstance(item, (tuple, list)) else (item,))
+
+    class HandlerTable(dict):
+        """the table of registered generic handlers: looked up by origin, along the origin's MRO like the real one"""
+
+        def __missing__(self, origin):
+            if isinstance(origin, type):
+                for base, h in self.by_class:
+                    if issubclass(origin, base):
+                        return h
+            raise KeyError(origin)
+
+    table = HandlerTable()
+    table.by_class = []
+    val_env = {}
+    for reg in A.generic_handlers(repo):
+        f, g = reg
+        closure_env = {}
+        for name, expr in (getattr(reg, "bindings", None) or {}).items():
+            if isinstance(expr, ast.Name):
+                closure_env[name] = ValFactory(expr.id)
         if dotted(g) in ("typing.Union", "Union"):
             table[typing.Union] = {Closure(f.node, {}): 0}
+        elif dotted(g) in ("Sequence", "collections.abc.Sequence", "typing.Sequence"):
+            table.by_class.append((collections.abc.Sequence, {Closure(f.node, closure_env): 0}))
+            for x in ast.walk(f.node):
+                if isinstance(x, ast.Subscript) and isinstance(x.value, ast.Name) and isinstance(x.ctx, ast.Load) and x.value.id not in f.params and x.value.id not in closure_env:
+                    val_env[x.value.id] = ValFactory(x.value.id)
     ns = {"int": int, "str": str, "typing": typing, "type": type, "Any": typing.Any, "Union": typing.Union}
     genv = {
         "typing": typing, "inspect": inspect, "types": types,
@@ -409,12 +457,15 @@ def r10_spellings_normalise_identically(ctx):
         "eval": lambda text, *a: eval(text, dict(a[0]) if a and isinstance(a[0], dict) else dict(ns)),
         "get_args": typing.get_args, "get_origin": typing.get_origin,
     }
+    for k_, v_ in val_env.items():
+        genv.setdefault(k_, v_)
+    ns.update({"list": list, "List": typing.List})
     me = Instance(nz.name, methods)
     me.__dict__["generic_handlers"] = table
     init = nz.methods.get("__init__")
     funcs = {n: g.node for n, g in nz.module.funcs.items() if g.parent is None and g.cls is None and not g.node.decorator_list}
     hi = HostInterp(methods, me, {}, globals_env=genv, classes={}, functions=funcs)
-    hi.host_types = hi.host_types + (Sub,)
+    hi.host_types = hi.host_types + (Sub, Val, ValFactory, HandlerTable)
     fn = Record(__globals__=ns, __module__="m", __name__="f", __qualname__="f")
     if init is not None:
         ctx.touch(init)
@@ -441,6 +492,7 @@ def r10_spellings_normalise_identically(ctx):
         "None": [("type(None)", type(None)), ("None", None), ("'None'", "None")],
         "a member that needs normalising (bare type)": [("(int, type)", (int, type)), ("typing.Union[int, type]", typing.Union[int, type]), ("(int, type[object])", (int, type[object])), ("'typing.Union[int, type]'", "typing.Union[int, type]")],
         "a member that needs normalising (Any)": [("(int, object)", (int, object)), ("typing.Union[int, typing.Any]", typing.Union[int, typing.Any]), ("(int, typing.Any)", (int, typing.Any))],
+        "a list of int": [("list[int]", list[int]), ("typing.List[int]", typing.List[int]), ("'list[int]'", "list[int]"), ("'typing.List[int]'", "typing.List[int]"), ("Annotated[typing.List[int], ..]", typing.Annotated[typing.List[int], "m"])],
         "three members, each to be normalised": [("(int, str, object)", (int, str, object)), ("(int, 'str', typing.Any)", (int, "str", typing.Any)), ("typing.Union[int, str, object]", typing.Union[int, str, object])],
     }
     if hasattr(types, "UnionType"):
@@ -459,6 +511,15 @@ def r10_spellings_normalise_identically(ctx):
         "a member that needs normalising (Any)": U(int, object),
         "three members, each to be normalised": U(int, str, object),
     }
+    seq = [v for v in val_env.values()]
+    if table.by_class and len(seq) == 1:
+        expected["a list of int"] = Val(seq[0].name, (int,), list)
+    elif table.by_class:
+        # factory-made handlers: the value type comes from the closure binding
+        names_ = [ce.name for _, hd in table.by_class for cl in hd for ce in cl.env.values() if isinstance(ce, ValFactory)]
+        expected["a list of int"] = Val(names_[0], (int,), list) if names_ else None
+    if expected.get("a list of int") is None:
+        groups.pop("a list of int")
     if hasattr(types, "UnionType"):
         groups["three members, each to be normalised"] += [("int | str | object", int | str | object), ("'object | int | str'", "object | int | str")]
     for what, spellings in groups.items():
